@@ -152,7 +152,7 @@ impl<'a> Model<'a> {
         for item in &file.items {
             match item {
                 Item::Marker(b) => self.byte_bits(*b),
-                Item::Include(sp) => match resolve(path, sp, &self.builtins) {
+                Item::Include(sp) | Item::IfInclude(sp) => match resolve(path, sp, &self.builtins) {
                     Resolved::Err(e) => return Err(Stop::Error(e)),
                     Resolved::Unspecified(w) => return Err(Stop::Unspecified(w)),
                     Resolved::Builtin(_) => return Err(Stop::Unspecified("built-in library content is not modelled".to_string())),
